@@ -25,7 +25,7 @@ type mgen struct {
 	maxDepth int
 	budget   int
 	noAny    bool
-	smallMap bool // at most one entry per map (used when the output may be unparseable)
+	smallMap bool            // at most one entry per map (used when the output may be unparseable)
 	badKinds map[string]bool // which non-representable classes may be injected (when !repr)
 }
 
@@ -33,9 +33,55 @@ var niceStrings = []string{
 	"", "a", "hello world", "with \"quotes\" and \\backslash\\", "slash/and\bbs\fff\nnl\rcr\ttab", "\x01\x02\x1f ctl", "\x7f del",
 	"😀𝄞 non-BMP", "\ufeffBOM", "line sep ", "repl\ufffdchar", "null", "true", "123", "-0", "1e5", "ключ значение", "日本語", "<script>&amp;'",
 	"{\"json\":1}", "!type", "value", "a.b.c", " lead and trail ", "é́ combining", "\U0010ffff max", "\u0000nul",
+	"\a\v\x1f bell vt us", "\U000e0001 tag", "\U000f0000\ufffe\u0085",
 }
 
 var niceKeys = []string{"", "a", "b", "k.dot", "ключ", "!type", "quote\"q", "value", "with space", "😀", "zz", "A", "0", "null", "back\\slash", "tab\t"}
+
+// oddKeys: map keys which a Go-syntax quoter (strconv.Quote) and the JSON string escaper write
+// differently: C0 controls without a JSON short escape (\a \v \x1f …), DEL, C1 controls, line /
+// paragraph separators, non-characters, unassigned and non-printable code points above U+FFFF
+// (tag characters, plane 14 / 15 / 16 private use) — C08-m8.
+var oddKeys = []string{"\a", "bell\aend", "\v", "vt\vx", "\x1f", "us\x1funit", "\x7f", "del\x7f", "\x00", "nul\x00x", "\x1b[0m",
+	"\u0085nel", "\u009fc1", "\u2028", "ps\u2029", "\ufffe", "\uffff", "\U000e0001", "tag\U000e0001x", "\U000e01ef", "\U000f0000",
+	"\U0010ffff", "\U0001fffe", "\U0003fffd", "\u0378", "\u00ad", "\u200b", "\ufeff", "\b\f\n\r\t", "\x01\x02\x03\x04\x05\x06"}
+
+// mapKey: 1/2 everyday keys, 1/4 odd keys, 1/4 random runes drawn mostly from the control ranges and
+// the non-printable / unassigned planes.
+func (g *mgen) mapKey() string {
+	switch g.r.IntN(4) {
+	case 0:
+		return oddKeys[g.r.IntN(len(oddKeys))]
+	case 1:
+		n := 1 + g.r.IntN(4)
+		var b strings.Builder
+		for i := 0; i < n; i++ {
+			var r rune
+			switch g.r.IntN(8) {
+			case 0, 1:
+				r = rune(g.r.IntN(0x20)) // C0
+			case 2:
+				r = 0x7f
+			case 3:
+				r = rune(0x80 + g.r.IntN(0x20)) // C1
+			case 4:
+				r = rune(0xe0000 + g.r.IntN(0x1000)) // tags, variation selectors, unassigned
+			case 5:
+				r = rune(0x10000 + g.r.IntN(0x100000)) // any astral code point
+			case 6:
+				r = rune('a' + g.r.IntN(26))
+			default:
+				r = rune(g.r.IntN(0x3000))
+			}
+			if !utf8.ValidRune(r) {
+				r = 'x'
+			}
+			b.WriteRune(r)
+		}
+		return b.String()
+	}
+	return niceKeys[g.r.IntN(len(niceKeys))]
+}
 
 var niceDecimals = []string{"0", "1", "-1", "1.5", "1.50", "-0.001", "100", "001.50", "+1.5", ".5", "5.", "1e3", "1E-3", "-0", "0.0", "123456789012345678901234567890.123456789", "1e+2", "0.1000", "-1.5e-7", "9999999999999999999"}
 
@@ -191,6 +237,15 @@ func (g *mgen) bytesVal() []byte {
 	n := []int{0, 1, 2, 3, 4, 5, 16, 31}[g.r.IntN(8)]
 	if g.r.IntN(8) == 0 {
 		n = g.r.IntN(200)
+	}
+	// values longer than any plausible chunk of a streaming base64 writer (C08-m7: 1024-byte chunks
+	// padded separately): the boundaries of 1 / 2 / 3 KiB (3 KiB = both a chunk and a 3-byte group
+	// boundary), and arbitrary lengths up to 5000
+	switch g.r.IntN(24) {
+	case 0:
+		n = []int{1022, 1023, 1024, 1025, 1026, 1027, 2047, 2048, 2049, 2050, 3071, 3072, 3073, 3074, 4096, 4097}[g.r.IntN(16)]
+	case 1:
+		n = 1000 + g.r.IntN(4000)
 	}
 	b := make([]byte, n)
 	for i := range b {
@@ -501,7 +556,7 @@ func (g *mgen) message(md protoreflect.MessageDescriptor, depth int) protoreflec
 				n = 1
 			}
 			for k := 0; k < n; k++ {
-				key := niceKeys[g.r.IntN(len(niceKeys))]
+				key := g.mapKey()
 				if !g.repr && g.badKinds["utf8"] && g.r.IntN(10) == 0 {
 					key = "bad\xffkey"
 				}
